@@ -259,3 +259,103 @@ def gen_lfile(rng, knobs=None):
     lf = {"leaves": [{k: v for k, v in l.items()} for l in leaves], "rgs": rgs,
           "created_by": knobs.get("created_by", rng.choice(["spec-encoder", "parquet-mr version 1.12", "fastparquet-python version 2024.2.0 (build 0)"]))}
     return lf, table
+
+
+# ---------------------------------------------------------------------------------------------
+# deterministic block (no PRNG): every converted/logical type x sign / extreme values, DECIMAL over every carrier
+
+def _be_signed(v, nbytes):
+    return {"b": (v & ((1 << (8 * nbytes)) - 1)).to_bytes(nbytes, "big").hex()}
+
+
+def _minimal_be(v):
+    n = 1
+    while not (-(1 << (8 * n - 1)) <= v < (1 << (8 * n - 1))):
+        n += 1
+    return _be_signed(v, n)
+
+
+def _signed_range_values(bits):
+    lo, hi = -(1 << (bits - 1)), (1 << (bits - 1)) - 1
+    mid = (1 << max(bits - 2, 1)) + 3
+    vals = [-1, 0, 1, lo, hi, -min(mid, -lo), min(mid, hi), -12345 if bits > 16 else -(lo // -3), 12345 if bits > 16 else hi // 3]
+    return [max(lo, min(hi, v)) for v in vals]
+
+
+EXTREMES = {
+    "bool": [0, 1, 1, 0],
+    "int32": [0, 1, M32, 0x7fffffff, 0x80000000], "int32c": [0, 1, M32, 0x7fffffff, 0x80000000],
+    "int8": [0, 1, (-1) & M32, 127, (-128) & M32], "int16": [0, 1, (-1) & M32, 32767, (-32768) & M32],
+    "uint8": [0, 1, 255, 128], "uint16": [0, 1, 65535, 32768], "uint32": [0, 1, M32, 0x80000000],
+    "date": [0, 1, (-1) & M32, 40000, (-20000) & M32], "time_ms": [0, 1, 86399999],
+    "int64": [0, 1, M64, (1 << 63) - 1, 1 << 63], "int64c": [0, 1, M64, (1 << 63) - 1, 1 << 63],
+    "uint64": [0, 1, M64, 1 << 63],
+    "ts_ms": [0, 1, (-1) & M64, 4 * 10**12, (-2 * 10**12) & M64], "ts_us": [0, 1, (-1) & M64, 4 * 10**15, (-2 * 10**15) & M64],
+    "ts_ns": [0, 1, (-1) & M64, 4 * 10**18, (-2 * 10**18) & M64], "time_us": [0, 1, 86400 * 10**6 - 1],
+    "int96": [0 | (2440588 << 64), (86400 * 10**9 - 1) | (2440587 << 64), 1 | (2488070 << 64), 5 | (2415021 << 64)],
+    "float": [0, 0x80000000, 0x3f800000, 0xbf800000, 0x7f7fffff, 0xff7fffff, 0x00000001, 0x7f800000, 0xff800000],
+    "double": [0, 1 << 63, 0x3ff0000000000000, 0xbff0000000000000, 0x7fefffffffffffff, 0xffefffffffffffff, 1, 0x7ff0000000000000],
+    "bytes": [{"b": ""}, {"b": "00"}, {"b": "ff"}, {"b": "00ff80"}], "utf8": [{"b": ""}, {"b": "61"}, {"b": "c3a9"}, {"b": "e697a5"}],
+    "json": [{"b": b'{"a": -1}'.hex()}, {"b": b"[]".hex()}, {"b": b'"x"'.hex()}, {"b": b"-1.5".hex()}],
+    "flba": [{"b": "000000"}, {"b": "ffffff"}, {"b": "800001"}, {"b": "7f00ff"}],
+}
+
+
+def _one_column_file(leaf, vals, optional, enc, v2):
+    """one column, one row group; a NULL after the second value when optional"""
+    nulls = ([False] * len(vals))
+    if optional:
+        nulls = nulls[:2] + [True] + nulls[2:]
+    n = len(nulls)
+    levels = [0 if x else 1 for x in nulls]
+    defruns = ([["b", levels]] if v2 else [["r", 2, 1], ["b", levels[2:]]]) if optional else []
+    items = []
+    if enc == "dict":
+        dvals = []
+        for v in vals:
+            if v not in dvals:
+                dvals.append(v)
+        dvals = dvals[::-1]
+        ix = [dvals.index(v) for v in vals]
+        w = max(1, max(ix).bit_length())
+        items.append({"dict": 0, "vals": dvals})
+        store = ["dictidx", 8, w, [["r", 1, ix[0]], ["b", ix[1:]]] if len(ix) > 1 else [["r", 1, ix[0]]]]
+    else:
+        store = ["plain", list(vals)]
+    items.append({"v2": v2, "n": n, "def": defruns, "store": store, "iscomp": None, "trail": "" if v2 else "0000000000000000"})
+    lf = {"leaves": [dict(leaf, optional=optional)], "rgs": [[{"codec": 0, "stats": True, "items": items}]], "created_by": "spec-encoder"}
+    it = iter(vals)
+    return lf, {leaf["name"]: [None if x else next(it) for x in nulls]}
+
+
+def fixed_block():
+    """-> [(lfile, table)]: deterministic, the same on every run"""
+    out = []
+    # DECIMAL over FIXED_LEN_BYTE_ARRAY of every interesting width, BYTE_ARRAY, INT32, INT64
+    carriers = [(7, w, "flba%d" % w) for w in (1, 2, 3, 5, 7, 8, 9, 16)] + [(6, 0, "ba"), (1, 0, "i32"), (2, 0, "i64")]
+    for ptype, tlen, nm in carriers:
+        bits = 8 * tlen if ptype == 7 else (72 if ptype == 6 else (32 if ptype == 1 else 64))
+        svals = _signed_range_values(bits)
+        if ptype == 7:
+            vals = [_be_signed(v, tlen) for v in svals]
+        elif ptype == 6:
+            vals = [_minimal_be(v) for v in svals] + [_be_signed(-1, 3), _be_signed(-256, 9)]
+        else:
+            vals = [v & (M32 if ptype == 1 else M64) for v in svals]
+        leaf = {"name": "dec_" + nm, "type": ptype, "tlen": tlen, "optional": False, "conv": 5, "logical": None,
+                "scale": 2, "precision": max(1, min(38, int((bits - 1) * 0.30103))), "tag": "decimal"}
+        for optional in (False, True):
+            for enc in ("plain", "dict"):
+                for v2 in (False, True):
+                    out.append(_one_column_file(leaf, vals, optional, enc, v2))
+    # every converted / logical type with its sign and extreme values
+    for ptype, conv, logical, tag in COLTYPES:
+        leaf = {"name": "x_" + tag, "type": ptype, "tlen": 3 if ptype == 7 else 0, "optional": False, "conv": conv, "logical": logical,
+                "scale": None, "precision": None, "tag": tag}
+        vals = EXTREMES[tag]
+        out.append(_one_column_file(leaf, vals, False, "plain", False))
+        out.append(_one_column_file(leaf, vals, True, "plain", True))
+        if ptype != 0:
+            out.append(_one_column_file(leaf, vals, True, "dict", False))
+            out.append(_one_column_file(leaf, vals, False, "dict", True))
+    return out
